@@ -57,11 +57,27 @@ pub fn snap_ct(c: &Ciphertext) -> CtSnap { CtSnap { size: c.size(), cms: c.coeff
 pub fn snap_pt(p: &Plaintext) -> PtSnap { PtSnap { cc: p.coeff_count(), data: p.data().clone(), id: *p.parms_id(), scale: p.scale().to_bits() } }
 fn ct_from(s: &CtSnap) -> Ciphertext { Ciphertext::from_members(s.size, s.cms, s.deg, s.data.clone(), s.id, f64::from_bits(s.scale), s.cf, s.ntt) }
 
-pub struct Env { pub w: World, pub rk: RelinKeys, pub gk: GaloisKeys, pub ksk: KSwitchKeys, pub rk_seeded: RelinKeys, pub gk_seeded: GaloisKeys }
+pub struct Env { pub w: World, pub rk: RelinKeys, pub gk: GaloisKeys, pub ksk: KSwitchKeys, pub rk_seeded: RelinKeys, pub gk_seeded: GaloisKeys, pub ksk_seeded: KSwitchKeys }
 
 #[derive(Clone)]
 pub struct Operands { pub a: Ciphertext, pub b: Ciphertext, pub c: Ciphertext, pub plain: Plaintext, pub target: ParmsID, pub elt: usize, pub steps: isize, pub garbage: Ciphertext,
-    pub seeded_keys: bool, pub foreign_keys: bool }
+    pub seeded_keys: bool, pub foreign_keys: bool,
+    /// Some(sel): every key of the key objects carries one residue equal to its modulus (polynomial and position from sel)
+    pub key_corr: Option<u16> }
+
+/// key objects in which every member key has one residue equal to its modulus, in polynomial `sel & 1` (0: c0, 1: c1)
+fn corrupt_keys(w: &World, keys: &KSwitchKeys, sel: u16) -> KSwitchKeys {
+    let kd = w.context.key_context_data().unwrap();
+    let moduli: Vec<u64> = kd.parms().coeff_modulus().iter().map(|m| m.value()).collect();
+    let n = kd.parms().poly_modulus_degree(); let k = moduli.len();
+    let mut out = keys.clone();
+    let poly = (sel & 1) as usize; let comp = ((sel >> 1) as usize) % k; let idx = ((sel >> 5) as usize) % n;
+    for slot in out.data_mut().iter_mut() { for pk in slot.iter_mut() {
+        let pos = poly * k * n + comp * n + idx;
+        if pos < pk.data().len() { pk.data_mut()[pos] = moduli[comp]; }
+    } }
+    out
+}
 
 /// a plaintext destination that was used before: other length, scrambled words, another scale
 fn used_plain(p: &Plaintext) -> Plaintext {
@@ -77,7 +93,10 @@ fn used_plain(p: &Plaintext) -> Plaintext {
 pub fn run_form(env: &Env, ep: Ep, form: FormK, o: &Operands) -> Snap {
     let ev = &env.w.evaluator;
     let mut rk_f; let mut gk_f; let mut ksk_f;
-    let (rk, gk, ksk): (&RelinKeys, &GaloisKeys, &KSwitchKeys) = if o.seeded_keys { (&env.rk_seeded, &env.gk_seeded, &env.ksk) } else if o.foreign_keys {
+    let (rk, gk, ksk): (&RelinKeys, &GaloisKeys, &KSwitchKeys) = if let Some(sel) = o.key_corr {
+        rk_f = RelinKeys::new(corrupt_keys(&env.w, env.rk.as_kswitch_keys(), sel)); gk_f = GaloisKeys::new(corrupt_keys(&env.w, env.gk.as_kswitch_keys(), sel)); ksk_f = corrupt_keys(&env.w, &env.ksk, sel);
+        (&rk_f, &gk_f, &ksk_f)
+    } else if o.seeded_keys { (&env.rk_seeded, &env.gk_seeded, &env.ksk_seeded) } else if o.foreign_keys {
         rk_f = env.rk.clone(); rk_f.set_parms_id([9, 9, 9, 9]); gk_f = env.gk.clone(); gk_f.set_parms_id([9, 9, 9, 9]); ksk_f = env.ksk.clone(); ksk_f.set_parms_id([9, 9, 9, 9]);
         (&rk_f, &gk_f, &ksk_f)
     } else { (&env.rk, &env.gk, &env.ksk) };
@@ -135,7 +154,7 @@ fn uses(ep: Ep) -> (bool, bool, bool, bool) { // (a, b, c, plain)
         _ => (true, false, false, false),
     }
 }
-fn uses_keys(ep: Ep) -> bool { matches!(ep, Ep::Relinearize | Ep::ApplyGalois | Ep::RotateRows | Ep::RotateColumns | Ep::RotateVector | Ep::ComplexConjugate) }
+fn uses_keys(ep: Ep) -> bool { matches!(ep, Ep::Relinearize | Ep::ApplyGalois | Ep::RotateRows | Ep::RotateColumns | Ep::RotateVector | Ep::ComplexConjugate | Ep::ApplyKeyswitching) }
 
 /// single-field corruption of a ciphertext; returns None if not applicable. The result is invalid by construction.
 fn corrupt_ct(w: &World, ct: &Ciphertext, kind: u8, pos: u16) -> Option<(Ciphertext, &'static str)> {
@@ -201,7 +220,8 @@ pub fn build_env(ps: &ParamSet) -> Result<Env, String> {
     let ksk = catch(|| w.keygen.create_keyswitching_key(other.secret_key(), false)).map_err(|p| format!("create_keyswitching_key: {p}"))?;
     let rk_seeded = catch(|| w.keygen.create_relin_keys(true)).map_err(|p| format!("create_relin_keys(seed): {p}"))?;
     let gk_seeded = catch(|| w.keygen.create_galois_keys(true)).map_err(|p| format!("create_galois_keys(seed): {p}"))?;
-    Ok(Env { w, rk, gk, ksk, rk_seeded, gk_seeded })
+    let ksk_seeded = catch(|| w.keygen.create_keyswitching_key(other.secret_key(), true)).map_err(|p| format!("create_keyswitching_key(seed): {p}"))?;
+    Ok(Env { w, rk, gk, ksk, rk_seeded, gk_seeded, ksk_seeded })
 }
 
 fn oracle(c: &FormsCase) -> Verdict {
@@ -260,7 +280,7 @@ fn oracle(c: &FormsCase) -> Verdict {
         let half = (n / 2) as isize;
         let steps = if half > 1 { let s = (ts.step as isize).rem_euclid(2 * half - 1) - (half - 1); if s == 0 { 1 } else { s } } else { 1 };
         let elt = (2 * (ts.step as usize % n) + 1) % (2 * n);
-        let o = Operands { a, b, c: cc, plain, target, elt, steps, garbage: garbage.clone(), seeded_keys: false, foreign_keys: false };
+        let o = Operands { a, b, c: cc, plain, target, elt, steps, garbage: garbage.clone(), seeded_keys: false, foreign_keys: false, key_corr: None };
         let before = (snap_ct(&o.a), snap_ct(&o.b), snap_ct(&o.c), snap_pt(&o.plain));
         let r_new = catch(|| run_form(&env, ts.ep, FormK::New, &o));
         let r_dest = catch(|| run_form(&env, ts.ep, FormK::Dest, &o));
@@ -294,7 +314,9 @@ fn oracle(c: &FormsCase) -> Verdict {
                 let which = ts.cwhich % 4;
                 if ts.corr >= 20 && uses_keys(ts.ep) {
                     // (the library silently stores no seed when a key polynomial is too small to hold one)
-                    if ts.corr % 2 == 0 && env.rk_seeded.contains_seed() && env.gk_seeded.contains_seed() { bad.seeded_keys = true; what = Some("seed-compressed keys".into()); } else { bad.foreign_keys = true; what = Some("keys with a foreign parms_id".into()); }
+                    // (a key whose data is out of range has to be refused where it is used: relinearizing a 2-component ciphertext touches no key)
+                    if ts.corr % 3 == 2 && !(ts.ep == Ep::Relinearize && o.a.size() < 3) { bad.key_corr = Some(ts.cpos); what = Some(format!("keys with one residue equal to its modulus in polynomial {}", ts.cpos & 1)); }
+                    else if ts.corr % 3 == 0 && env.rk_seeded.contains_seed() && env.gk_seeded.contains_seed() && env.ksk_seeded.contains_seed() { bad.seeded_keys = true; what = Some("seed-compressed keys".into()); } else { bad.foreign_keys = true; what = Some("keys with a foreign parms_id".into()); }
                 } else if up && (which == 3 || !ua) {
                     if let Some((p, wh)) = corrupt_pt(w, &o.plain, ts.corr % 6, ts.cpos) { bad.plain = p; what = Some(format!("plaintext: {wh}")); }
                 } else if ua && ub && ts.corr % 5 == 4 && matches!(ts.ep, Ep::Add | Ep::Sub | Ep::Multiply) {
@@ -337,7 +359,7 @@ pub fn def() -> PropertyDef {
     PropertyDef {
         id: "C06",
         level: "exploration",
-        rule: "operand states reached by random build sequences (multiply, square, relinearize, mod switch, rescale, representation changes, plaintext products) in BFV, BGV and CKKS; for each of 26 evaluator entry points the in-place, destination (pre-filled with an unrelated ciphertext / a scrambled plaintext of another length and scale) and value-returning forms are executed on the same operands: all three must either return word-for-word identical objects (and leave read-only operands unchanged, and the result must be valid and accepted by a follow-up add) or all three must refuse. Where they succeed, one operand is corrupted in a single field (residue = q_i / 2^64-1, foreign / other-level / key-level parms id, size 1 / 17, coeff_modulus_size or degree off, buffer length off by one, scale, correction factor, seed flag; plaintext coefficient = t, NTT residue = q_i, foreign id, wrong length; seed-compressed or foreign keys) and every form must refuse. non-trivial: forms agreed on a non-fresh operand state, or a corruption was exercised.",
+        rule: "operand states reached by random build sequences (multiply, square, relinearize, mod switch, rescale, representation changes, plaintext products) in BFV, BGV and CKKS; for each of 26 evaluator entry points the in-place, destination (pre-filled with an unrelated ciphertext / a scrambled plaintext of another length and scale) and value-returning forms are executed on the same operands: all three must either return word-for-word identical objects (and leave read-only operands unchanged, and the result must be valid and accepted by a follow-up add) or all three must refuse. Where they succeed, one operand is corrupted in a single field (residue = q_i / 2^64-1, foreign / other-level / key-level parms id, size 1 / 17, coeff_modulus_size or degree off, buffer length off by one, scale, correction factor, seed flag; plaintext coefficient = t, NTT residue = q_i, foreign id, wrong length; seed-compressed or foreign keys, or keys with one out-of-range residue in either polynomial) and every form must refuse. non-trivial: forms agreed on a non-fresh operand state, or a corruption was exercised.",
         assumptions: vec!["any panic counts as a refusal (the library's convention)", "no-op requests (target level = current level) are excluded from the refusal clause because nothing is computed"],
         subs: vec![Sub::prop("forms_and_corruptions", 200_000, 1_500_000, 0.3, forms_case, oracle)],
     }
